@@ -13,6 +13,7 @@ Trace_SinexBlocks (TLC) decides every call.
     ./check SINEXBLOCKS quick|thorough
 """
 import contextlib
+import hashlib
 import io
 import json
 import os
@@ -112,6 +113,9 @@ def render(doc):
     return "\n".join(out), recs
 
 
+TABLE = {}      # real-format documents: text of a line (without outer blanks) -> its record in the start document
+
+
 def tokenise(s):
     """a line of text as returned / written by the library -> line record (what it is, not whether it is right)"""
     if not isinstance(s, str):
@@ -122,6 +126,9 @@ def tokenise(s):
     core = s.rstrip()
     tw = len(s) - len(core)
     core = core.lstrip(" ")
+    if core in TABLE:       # "the same line" = the same text as a line of the start document
+        r = TABLE[core]
+        return ln(r["k"], r["nm"], r["id"], lead, tw, r["f"])
     if core.startswith("%=SNX"):
         return ln("header", "", 0, lead, tw)
     if core == "%ENDSNX":
@@ -148,9 +155,9 @@ def lines_of(v):
     return [tokenise(x) for x in v]
 
 
-def run_behaviour(g, doc, labels, tmpdir, tag, fnl=False):
+def run_behaviour(g, doc, labels, tmpdir, tag, fnl=False, prepared=None):
     """replays one TLC behaviour on the real functions -> trace (events) + the texts, for the replay file"""
-    text, recs = render(doc)
+    text, recs = prepared if prepared else render(doc)
     if fnl:
         text += "\n"
     path = os.path.join(tmpdir, "%s_0.snx" % tag)
@@ -249,6 +256,102 @@ def behaviours(ctx, n, maxblocks, hlen):
     return list(seen.values())
 
 
+def lex_real(text, adoc, txt):
+    """a SINEX 2.02 text from the C18 renderer (harness/sinexio.py) -> line records; identity of a data / comment line = its text
+    (interned), the record fields of the epoch lines = the values the renderer was given (not cut out of the text)"""
+    recs, table, cur, nid = [], {}, "", 0
+    h = txt["hdr"]
+    ent = adoc["ent"]
+    sitept = {}
+    epi = 0
+    for raw in text.split("\n"):
+        lead = len(raw) - len(raw.lstrip(" "))
+        core = raw.strip()
+        if core.startswith("%=SNX"):
+            q = ln("header")
+        elif core == "%ENDSNX":
+            q = ln("trailer")
+        elif core.startswith("+") or core.startswith("-"):
+            q = ln("open" if core[0] == "+" else "close", core[1:].split(" ")[0])
+            cur = q["nm"] if core[0] == "+" else ""
+        elif core == SEP:
+            q = ln("note", "sep")
+        elif core.startswith("*Code PT"):
+            q = ln("note", "cols")
+        else:
+            if core not in table:
+                nid += 1
+                f = []
+                if cur == "SOLUTION/EPOCHS" and not core.startswith("*"):
+                    s_, so = ent[epi]
+                    code, so_, ep = txt["entf"][epi]
+                    f = [code, txt["sitef"][s_ - 1][1], str(so), h["tech"], h["start"], h["end"], ep]
+                    epi += 1
+                table[core] = ln("note", "text", nid) if core.startswith("*") else ln("data", "", nid, lead, 0, f)
+            r = table[core]
+            q = ln(r["k"], r["nm"], r["id"], lead, 0, r["f"])
+        recs.append(q)
+    return recs, table
+
+
+def real_documents(seed, n):
+    """start documents in the real format: the abstract documents of C18 (entries, velocities, triangle, comment block) rendered
+    by the C18 renderer"""
+    import numpy as np_
+    rnd = random.Random("real:%s" % seed)
+    out = []
+    for k in range(n):
+        nent = 1 + k % 4
+        sites, ent = [], []
+        for _ in range(nent):
+            s_ = rnd.randint(1, len(sites) + 1) if sites else 1
+            if s_ > len(sites):
+                sites.append(s_)
+            ent.append([s_, 1 + sum(1 for e in ent if e[0] == s_)])
+        adoc = {"ent": ent, "vel": bool(k % 2), "tri": "LU"[(k // 2) % 2], "bd": bool((k // 4) % 2), "comm": bool((k // 3) % 2)}
+        txt = sx.concretise(adoc, rnd, np_)
+        text = sx.render(adoc, txt)
+        if k % 5 == 0:
+            text = text[:-1]                          # no final newline
+        out.append((adoc, txt, text))
+    return out
+
+
+def run_real(g, adoc, txt, text, tmpdir, tag):
+    """every reader, writeSINEX of everything, every reader again, on a real-format document; plus the numeric readers of C18
+    before and after the rewriting (event `numeric`)"""
+    fnl = text.endswith("\n")
+    body = text[:-1] if fnl else text
+    recs, table = lex_real(body, adoc, txt)
+    TABLE.clear()
+    TABLE.update(table)
+    try:
+        everything = [["block", n] for n in READER] + [["comments"], ["hline"], ["hblock"], ["list"], ["epochs"]]
+        labels = [["doc"]] + everything + [["write", list(KW), True]] + everything + [["custom", 1, 3], ["custom", 2, len(recs) + 1]]
+        path0 = os.path.join(tmpdir, "%s_0.snx" % tag)
+        with open(path0, "w") as f:
+            f.write(text)
+
+        def numeric(p):
+            with contextlib.redirect_stdout(io.StringIO()):
+                return json.dumps([sx.est_obs(g.read_sinex_estimate(p)), sx.mat_obs(g.read_sinex_matrix(p)),
+                                   sx.sites_obs(g.read_sinex_sites(p))], sort_keys=True, default=str)
+        t = run_behaviour(g, None, labels, tmpdir, tag, fnl=fnl, prepared=(body, recs))
+        ev = {"k": "numeric", "exc": "", "before": "", "after": ""}
+        try:
+            ev["before"] = numeric(path0)
+            ev["after"] = numeric(os.path.join(tmpdir, "%s_1.snx" % tag))
+        except Exception as ex:
+            ev["exc"] = "%s: %s" % (type(ex).__name__, str(ex)[:80])
+        ev["before"], ev["after"] = (hashlib.sha1(ev[x].encode()).hexdigest() for x in ("before", "after"))
+        t["ev"].append(ev)
+        t["labels"] = labels + [["numeric"]]
+        t["real"] = {"adoc": adoc, "text": text}
+        return t
+    finally:
+        TABLE.clear()
+
+
 def corner_behaviours():
     """hand-made start documents at the corners the model names (same labels as TLC prints)"""
     def d(*lines):
@@ -312,13 +415,20 @@ def run(ctx):
             ctx.evaluations += len(labels) - 1
             for f in os.listdir(td):
                 os.unlink(os.path.join(td, f))
+        reals = real_documents(ctx.seed, 40 if quick else 800)
+        for k, (adoc, txt, text) in enumerate(reals):
+            traces.append(run_real(g, adoc, txt, text, td, "r%d" % k))
+            ctx.evaluations += len(traces[-1]["labels"]) - 1
+            for f in os.listdir(td):
+                os.unlink(os.path.join(td, f))
+    ctx.extra["real_format_documents"] = len(reals)
     fails, results = judge(traces, ctx, "Trace_SinexBlocks")
     for (i, l, clause) in fails + deviations(results):
         t = traces[i]
         desc, msg = describe(t, l, clause)
-        ctx.violation(desc, msg, case={"doc": t["doc"], "labels": t["labels"], "fnl": t["fnl"]})
+        ctx.violation(desc, msg, case={"doc": t["doc"], "labels": t["labels"], "fnl": t["fnl"], "real": t.get("real")})
     for t in traces:
-        ctx.nontrivial(json.dumps([t["doc"], t["labels"]], sort_keys=True))
+        ctx.nontrivial(json.dumps([t["doc"] or t["text"], t["labels"]], sort_keys=True))
         for e in t["ev"]:
             ctx.actions[e["k"]] = ctx.actions.get(e["k"], 0) + 1
     bad = set(i for (i, l, c) in fails)
@@ -328,7 +438,9 @@ def run(ctx):
     ctx.rule = ("behaviours = TLC-simulated behaviours of SinexBlocks.tla (start documents of 0..4 blocks out of 8 names, 0..3 data lines, "
                 "closed or unterminated, duplicate names, column headings and comments inside blocks, rule lines between blocks; then 8-12 "
                 "calls out of 21 readers and writeSINEX, up to three generations of written files) plus six hand-made corner documents with "
-                "every reader called before and after a write of everything; distinct = distinct (document, calls)")
+                "every reader called before and after a write of everything, plus real-format documents (the abstract documents of C18 rendered by "
+                "the C18 renderer: 1..4 entries, velocities, L / U matrix, comment block) with every reader, a rewrite of everything, every "
+                "reader again and the numeric readers of C18 before / after; distinct = distinct (document, calls)")
     ctx.assumptions += ["the stamp line of read_sinex_comments is recognised by its form (text + dd-mm-yyyy, hh:mm), its clock value is not checked",
                         "block names that are prefixes of one another do not occur (none of the format's names is)"]
 
@@ -358,7 +470,11 @@ def replay(ctx, data):
     g = sx.gnss()
     c = data["case"]
     with tempfile.TemporaryDirectory(prefix="gvf_snxb_") as td:
-        t = run_behaviour(g, c["doc"], c["labels"], td, "r", fnl=c.get("fnl", False))
+        if c.get("real"):
+            adoc, txt, text = next(x for x in real_documents(data.get("seed", 20261001), 800) if x[2] == c["real"]["text"])
+            t = run_real(g, adoc, txt, text, td, "r")
+        else:
+            t = run_behaviour(g, c["doc"], c["labels"], td, "r", fnl=c.get("fnl", False))
     fails, results = judge([t], ctx, "replay")
     fails = fails + deviations(results)
     for (i, l, clause) in fails:
